@@ -33,7 +33,9 @@ EXTENDS Integers, FiniteSets, Sequences, TLC, Json
 CONSTANTS MinKeys, MaxKeys,  \* key lists of MinKeys..MaxKeys keys
           NI,                \* replica calls / instances 1..NI  (NI <= 6)
           MaxRF,             \* at most this many replicas per key
-          Shape,             \* "any": maxErr[k] in 0..|reps[k]|-1;  "quorum": dskit's strategy (see ShapeOK)
+          Shape,             \* "any": maxErr[k] in 0..|reps[k]|-1;  "quorum": dskit's strategy (see ShapeOK);
+                             \* "degenerate": also maxErr[k] = |reps[k]| (minSuccess 0), which no ring of dskit produces -
+                             \* negative control: the call then waits for the caller's context (MC_degenerate*.cfg)
           Grain,             \* "atomic" | "hook" | "call"
           Gate,              \* TRUE: the environment moves only in quiescent states (what a test driver can do)
           EmptyFix,          \* TRUE: an empty key list returns nil (the property); FALSE: the pinned code (F1)
@@ -83,19 +85,21 @@ RepSets == {S \in SUBSET Inst : S # {} /\ Cardinality(S) <= MaxRF}
 (* minSuccess = MaxRF \div 2 + 1, between minSuccess and MaxRF healthy replicas.        *)
 ShapeOK(r, m, n) ==
     \A k \in 1..n :
-        /\ m[k] < Cardinality(r[k])
+        /\ m[k] < Cardinality(r[k]) \/ (Shape = "degenerate" /\ m[k] = Cardinality(r[k]))
         /\ Shape = "quorum" => Cardinality(r[k]) - m[k] = (MaxRF \div 2) + 1
 
-CfgSet ==
+(* (an operator with a parameter: TLC evaluates parameterless constant definitions at start-up, also in runs  *)
+(* that never use them - BatchSim, BatchTrace - where the universe may be far too large to enumerate)        *)
+CfgSet(u) ==
     UNION {
         {[nk |-> n, reps |-> r, maxErr |-> m, getErrAt |-> g, noInst |-> z] :
             r \in {x \in [1..n -> RepSets] : Canonical(x, n)},
-            m \in [1..n -> 0..(MaxRF - 1)],
+            m \in [1..n -> 0..(IF Shape = "degenerate" THEN MaxRF ELSE MaxRF - 1)],
             g \in (IF EarlyExits THEN 0..n ELSE {0}),
             z \in (IF EarlyExits THEN BOOLEAN ELSE {FALSE})}
         : n \in MinKeys..MaxKeys}
 
-Cases == {c \in CfgSet : ShapeOK(c.reps, c.maxErr, c.nk) /\ (c.noInst => c.getErrAt = 0)}
+Cases(u) == {c \in CfgSet(u) : ShapeOK(c.reps, c.maxErr, c.nk) /\ (c.noInst => c.getErrAt = 0)}
 
 -----------------------------------------------------------------------------
 (* batchTracker.record, one shared-memory access per step.                  *)
@@ -173,9 +177,9 @@ GrainStops == IF Grain = "hook" THEN YieldPcs ELSE {}
 -----------------------------------------------------------------------------
 NoPend == [on |-> FALSE, a |-> "", c |-> 0, o |-> "", pre |-> FALSE, cg |-> 0]
 
-InitWith(c) ==
+InitWithMain(c, m) ==
     /\ cfg = c
-    /\ main = "start" /\ gi = 0 /\ ctx = FALSE
+    /\ main = m /\ gi = 0 /\ ctx = FALSE
     /\ items = [i \in Inst |-> <<>>]
     /\ s = [succ |-> [k \in 1..c.nk |-> 0], failC |-> [k \in 1..c.nk |-> 0], failS |-> [k \in 1..c.nk |-> 0],
             rem |-> [k \in 1..c.nk |-> 0], errv |-> [k \in 1..c.nk |-> 0],
@@ -186,7 +190,9 @@ InitWith(c) ==
     /\ pend = [NoPend EXCEPT !.on = Record, !.a = "start"]
     /\ hist = <<>>
 
-Init == \E c \in Cases : InitWith(c)
+InitWith(c) == InitWithMain(c, "start")
+
+Init == \E c \in Cases(0) : InitWith(c)
 
 -----------------------------------------------------------------------------
 (* What is enabled without the environment: the goroutines of the code.     *)
@@ -436,11 +442,23 @@ CleanupStable == [][cleaned' >= cleaned /\ nret' >= nret /\ (ret.kind # "none" =
 Termination == <>[](main = "returned" /\ cleaned = 1 /\ AllCallsDone)
 
 -----------------------------------------------------------------------------
+(* The deprecated wrapper DoBatch(ctx, op, r, keys, callback, cleanup) is DoBatchWithOptions with Cleanup = cleanup, *)
+(* the default spawner and IsClientError = isHTTPStatus4xx: the family of a replica error is decided by the status   *)
+(* code grpcutil.ErrorToStatusCode reads from it (code 0 below: an error that carries no gRPC status, which reads    *)
+(* as codes.Unknown = 2).  Everything else is the specification above, so the wrapper refines it under this mapping  *)
+(* of concrete errors to outcomes; the driver takes its concrete status codes for "cerr" / "serr" from this table.   *)
+StatusCodes == {0, 2, 3, 4, 399, 400, 404, 429, 499, 500, 503, 599}
+WireCode(code) == IF code = 0 THEN 2 ELSE code
+FamilyOfCode(code) == IF WireCode(code) \div 100 = 4 THEN "cerr" ELSE "serr"
+CodesOf(f) == {code \in StatusCodes : FamilyOfCode(code) = f}
+ASSUME CodesOf("cerr") = {400, 404, 429, 499} /\ CodesOf("cerr") \cup CodesOf("serr") = StatusCodes
+
 (* Case generation: one JSON line per complete behaviour of the driver-visible (gated) system. *)
 Behaviour == [cfg |-> [nk |-> cfg.nk, reps |-> cfg.reps, maxErr |-> cfg.maxErr, getErrAt |-> cfg.getErrAt, noInst |-> cfg.noInst],
               grain |-> Grain, steps |-> hist,
               calls |-> (IF Dispatched THEN items ELSE [i \in Inst |-> <<>>]),   \* callback invocations
-              spawns |-> spawns]
+              spawns |-> spawns,
+              codes |-> [cerr |-> CodesOf("cerr"), serr |-> CodesOf("serr")]]   \* for the DoBatch wrapper
 Emit == (Record /\ ~pend.on /\ AllCallsDone /\ main \in {"waiting", "returned"} /\ Quiescent)
             => PrintT(ToJson(Behaviour))
 =============================================================================
